@@ -678,7 +678,9 @@ impl<K: Kmer, D: Debug> DebruijnGraph<K, D> {
             Some(Value::Object(v)) => {
                 for (k, v) in v.iter() {
                     writeln!(writer, ",").expect("io error");
-                    write!(writer, "\"{}\": ", k).expect("io error");
+                    // the key is a JSON string: quotes, backslashes and control characters need escaping
+                    serde_json::to_writer(&mut writer, k).expect("io error");
+                    write!(writer, ": ").expect("io error");
                     serde_json::to_writer(&mut writer, v).expect("io error");
                     writeln!(writer).expect("io error");
                 }
